@@ -24,7 +24,8 @@ RULE = ("E1+E3: ('rt', curve, key) for all 17 curves x 7 keys (scalar 1, n-1, 2 
         "proper prefix and one-byte extension of every valid encoding must be rejected; ('mut', curve, enc, pos) EVERY position x {^01, ^80, 00, FF, "
         "+1} must decode or raise a documented error (UnexpectedDER, MalformedPointError, UnknownCurveError, ValueError, RuntimeError). "
         "Distinct = case tuples; decodes counted in 'measured'."
-        " Decoded keys are encoded again in the default form and compared byte for byte with the original's default encoding (own encodings and OpenSSL-produced ones); a truncated / extended point string that an independent SEC 1 reader recognises as a complete valid encoding in another form must be read as exactly that point.")
+        " Decoded keys are encoded again in the default form and compared byte for byte with the original's default encoding (own encodings and OpenSSL-produced ones); a truncated / extended point string that an independent SEC 1 reader recognises as a complete valid encoding in another form must be read as exactly that point."
+        " An accepted single-byte mutant of a DER encoding must still be structurally sound (every element fits its container; the optional publicKey field of ECPrivateKey, documented as ignored, is exempt). ('elem', curve, enc): every element of the DER tree emptied / cut to one byte / shortened / extended with ALL enclosing lengths repaired, and every cut position with the enclosing lengths repaired while the innermost element stays truncated: documented error, or (only at an element boundary) a well-formed shorter value.")
 ASSUMPTIONS = [
     "documented decoder errors: UnexpectedDER, MalformedPointError, UnknownCurveError, ValueError (incl. binascii.Error), RuntimeError",
     "OpenSSL 3 CLI is the compatibility oracle; byte-identical re-encoding is required for SEC1/SPKI with named curve and uncompressed points",
@@ -100,6 +101,10 @@ def cases(ctx):
             yield ("gen", ci, form)
         for enc in MAL_ENC:
             yield ("prefix", ci, enc)
+            if not enc.startswith("str") and not enc.startswith("privstr"):
+                # every element of the DER tree emptied / cut / extended with all enclosing lengths repaired (a consistent encoding of
+                # a malformed value - the decoder gets past the outer length checks)
+                yield ("elem", ci, enc)
     for ki in range(7):
         yield ("p256", ki)
     for ci, cur in enumerate(STD):
@@ -173,6 +178,120 @@ def _sqrt_candidates(a, p):
         b = pow(c, 1 << (m - i - 1), p)
         m, c, t, r = i, b * b % p, t * b * b % p, r * b % p
     yield r
+
+
+def der_fits(buf):
+    """Structural well-formedness only: every element of the top-level value - and, recursively, of every constructed element
+    (tag bit 0x20) - has a declared length that fits the bytes of its container, and containers are filled exactly.  An element that
+    claims more bytes than its container holds is a truncated element, whatever a lenient decoder makes of it."""
+    try:
+        tag, content, end = D.read_tlv(buf, 0)
+    except D.DerError:
+        return False
+    if end != len(buf):
+        return False
+
+    def walk(tag, content):
+        if tag & 0x20:
+            pos = 0
+            while pos < len(content):
+                try:
+                    t, c, pos = D.read_tlv(content, pos)
+                except D.DerError:
+                    return False
+                if not walk(t, c):
+                    return False
+        return True
+    return walk(tag, content)
+
+
+def ignored_range(data, dk):
+    """byte range of a private-key encoding that the decoder documents as ignored: the optional publicKey [1] field (and anything
+    after it) inside the ECPrivateKey structure.  What sits there is not the decoder's business, malformed or not."""
+    if dk != "priv":
+        return (len(data), len(data))
+    try:
+        t, c, end = D.read_tlv(data, 0)
+        base = end - len(c)
+        kids = []
+        pos = 0
+        while pos < len(c):
+            t2, c2, nxt = D.read_tlv(c, pos)
+            kids.append((t2, pos, nxt, c2))
+            pos = nxt
+        if len(kids) >= 3 and kids[2][0] == 0x04 and kids[1][0] == 0x30:
+            # PKCS#8: version, AlgorithmIdentifier, OCTET STRING { ECPrivateKey }
+            inner_off = base + kids[2][2] - len(kids[2][3])
+            t3, c3, e3 = D.read_tlv(kids[2][3], 0)
+            ibase = inner_off + (e3 - len(c3))
+            pos = 0
+            while pos < len(c3):
+                t4, c4, nxt = D.read_tlv(c3, pos)
+                if t4 == 0xA1:
+                    return (ibase + pos, len(data))
+                pos = nxt
+            return (len(data), len(data))
+        for t2, pos, nxt, c2 in kids:
+            if t2 == 0xA1:
+                return (base + pos, len(data))
+    except D.DerError:
+        pass
+    return (len(data), len(data))
+
+
+def der_tree(buf):
+    """[(tag, content bytes | [children])] of a byte string holding consecutive TLVs; constructed elements are parsed recursively"""
+    out = []
+    pos = 0
+    while pos < len(buf):
+        t, c, pos = D.read_tlv(buf, pos)
+        out.append([t, der_tree(c) if t & 0x20 else c])
+    return out
+
+
+def der_emit(tree):
+    return b"".join(D.tlv(t, der_emit(c) if isinstance(c, list) else c) for t, c in tree)
+
+
+def der_paths(tree, prefix=()):
+    for i, (t, c) in enumerate(tree):
+        yield prefix + (i,)
+        if isinstance(c, list):
+            for p_ in der_paths(c, prefix + (i,)):
+                yield p_
+
+
+def der_edit(tree, path, fn):
+    import copy
+    tr = copy.deepcopy(tree)
+    node = tr
+    for i in path[:-1]:
+        node = node[i][1]
+    node[path[-1]][1] = fn(node[path[-1]][1])
+    return tr
+
+
+def der_cut(buf, k):
+    """The encoding cut after k bytes, with the lengths of all ENCLOSING constructed elements repaired so that they end exactly at
+    the cut; the element the cut falls into keeps its declared length (it is the truncated one).  -> bytes"""
+    out = b""
+    pos = 0
+    while pos < len(buf) and pos < k:
+        try:
+            t, c, end = D.read_tlv(buf, pos)
+        except D.DerError:
+            return out + buf[pos:k]
+        hdr = end - len(c) - pos
+        if end <= k:
+            out += buf[pos:end]
+        elif pos + hdr > k:
+            out += buf[pos:k]                           # cut inside the tag / length bytes
+        elif t & 0x20:
+            out += D.tlv(t, der_cut(c, k - pos - hdr))  # constructed: repair its length, cut inside
+        else:
+            out += buf[pos:k]                           # primitive: header as declared, content short
+        pos = end
+    return out
 
 
 def decode(kind, data, cur):
@@ -419,6 +538,11 @@ def run_case(ctx, case):
             n += 1
             try:
                 decode(dk, bytes(b), cur)
+                ig = ignored_range(data, dk)
+                if dk in ("priv", "pub") and not (ig[0] <= pos < ig[1]) and not der_fits(bytes(b)):
+                    o.cls = "accepted-truncated-element"
+                    o.viol("mut|accepted-overlong-element|%s" % enc.split(":")[0], "%s %s: byte %d %s gives an element whose declared length exceeds "
+                           "its container (a truncated element), yet the encoding was accepted" % (cur.name, enc, pos, cls))
             except DOCUMENTED:
                 pass
             except Exception as e:
@@ -427,6 +551,59 @@ def run_case(ctx, case):
                 o.cls = "foreign"
                 o.viol("mut|foreign|%s|%s|%s" % (enc.split(":")[0], type(e).__name__, tb[-1].name),
                        "%s %s: byte %d %s raised undocumented %s in %s: %s" % (cur.name, enc, pos, cls, type(e).__name__, tb[-1].name, e))
+        o.extra = {"decodes": n}
+        return o
+    if kind == "elem":
+        cur = STD[case[1]]
+        enc = case[2]
+        data, dk = encode(ctx, cur, enc)
+        tree = der_tree(data)
+        n = 0
+        for path in der_paths(tree):
+            for what, fn in (("emptied", lambda c: [] if isinstance(c, list) else b""),
+                             ("cut to 1", lambda c: c[:1]),
+                             ("last dropped", lambda c: c[:-1]),
+                             ("one byte appended", lambda c: (c + [[0x05, b""]]) if isinstance(c, list) else c + b"\x00")):
+                bad = der_emit(der_edit(tree, path, fn))
+                if bad == data:
+                    continue
+                n += 1
+                try:
+                    decode(dk, bad, cur)
+                except DOCUMENTED:
+                    pass
+                except Exception as e:
+                    import traceback
+                    tb = traceback.extract_tb(e.__traceback__)
+                    o.cls = "foreign"
+                    o.viol("elem|foreign|%s|%s|%s" % (enc.split(":")[0], type(e).__name__, tb[-1].name),
+                           "%s %s: element %r %s (all enclosing lengths repaired) raised undocumented %s in %s: %s" % (
+                               cur.name, enc, path, what, type(e).__name__, tb[-1].name, e))
+        # every cut position with the enclosing lengths repaired (the innermost element stays truncated)
+        for k in range(1, len(data)):
+            bad = der_cut(data, k)
+            if bad == data[:k]:
+                continue               # nothing to repair: this is the plain prefix of the 'prefix' family
+            n += 1
+            try:
+                decode(dk, bad, cur)
+                # a cut at an element boundary leaves a well-formed (shorter) value, e.g. an ECPrivateKey without its optional
+                # public key: accepting that is fine.  Accepting bytes in which some element is still truncated is not
+                ig = ignored_range(data, dk)
+                if not der_fits(bad) and not (ig[0] <= k <= ig[1] and ig[0] < len(data)):
+                    o.cls = "accepted-truncated"
+                    o.viol("elem|accepted-cut|%s" % enc.split(":")[0], "%s %s: the encoding cut after %d bytes (enclosing lengths repaired, the innermost "
+                           "element still truncated) was accepted" % (cur.name, enc, k))
+                    break
+            except DOCUMENTED:
+                pass
+            except Exception as e:
+                import traceback
+                tb = traceback.extract_tb(e.__traceback__)
+                o.cls = "foreign"
+                o.viol("elem|foreign|%s|%s|%s" % (enc.split(":")[0], type(e).__name__, tb[-1].name),
+                       "%s %s: cut after %d bytes with enclosing lengths repaired raised undocumented %s in %s: %s" % (
+                           cur.name, enc, k, type(e).__name__, tb[-1].name, e))
         o.extra = {"decodes": n}
         return o
     raise ValueError(case)
